@@ -25,10 +25,25 @@ structure ChainEntry where
   appendsSignal : Bool          -- message += StringFrom(WTERMSIG(status))
 deriving Repr, DecidableEq, Inhabited
 
+/-- how one pass through the body of the parent's `do … while` (or the code in front of it) ends, as
+    regenerated from the AST into `Gen/SeparateProcessLoop.lean`: the texts of the failures added, the
+    number of `kill(w, SIGCONT)` calls, and either `return` or the `while` condition with the values
+    of the loop's locals -/
+inductive BodyOut
+  | ret (failures : List String) (conts : Nat)
+  | fall (failures : List String) (conts : Nat) (retries : BitVec 64) (status : BitVec 32) (again : Bool)
+deriving Repr, DecidableEq, Inhabited
+
 /-- where `TestRegistry::runAllTests` calls `test->setRunInSeperateProcess()` -/
 inductive SepFlagPlacement
   | everyTest                   -- first statement of the loop body: for every test
   | groupStartOnly              -- inside `if (groupStart) { … }`: only for the first test of a group
+deriving Repr, DecidableEq, Inhabited
+
+/-- what the run-ignored branch of `IgnoredUtestShell::runOneTest` does with the test -/
+inductive IgnoredRunCall
+  | viaRunOneTest               -- `UtestShell::runOneTest(plugin, result)`: the same separate-process-or-not decision as every test
+  | inCurrentProcess            -- `result.countRun(); runOneTestInCurrentProcess(plugin, result)`: never forked
 deriving Repr, DecidableEq, Inhabited
 
 /-- the command-line switches `CommandLineTestRunner::initializeTestRun` acts on -/
